@@ -108,6 +108,14 @@ func runC02(c *Ctx, sc c02Scenario, ch Chooser) (trace []string, failed bool) {
 		mutexFree := true
 		if modelOn {
 			mutexFree = d.Ask("canswap") == "ok yes"
+		} else {
+			// the model is out of step (a disagreement was reported): keep the schedule runnable by reading the
+			// mutex off the hook positions: a reporter past its swap and before its visit end holds it
+			for _, v := range viss {
+				if v.live && (v.t.At == "gauge.report:1" || v.t.At == "rep.gauge") {
+					mutexFree = false
+				}
+			}
 		}
 		for _, v := range viss {
 			if v.live && (v.t.At != "gauge.report:0" || mutexFree) {
